@@ -16,7 +16,8 @@ def Out.isValueOrError {α : Type} : Out α → Bool
 
 /-- a value/error outcome comes with no lock held -/
 def HeldOK {α : Type} (r : St D × Out α) : Prop :=
-  (r.2.isValueOrError = true → r.1.held = []) ∧ r.2 ≠ .deadlock .other ∧ r.2 ≠ .livelock
+  (r.2.isValueOrError = true → r.1.held = []) ∧ r.2 ≠ .deadlock .other ∧ r.2 ≠ .livelock ∧
+    (∀ s, r.2 ≠ .panic s)
 
 theorem heldOK_of_eq {α : Type} {x : St D × Out α} {st : St D} {o : Out α} (h : HeldOK x)
     (he : x = (st, o)) (ho : o.isValueOrError = true) : st.held = [] := by
@@ -24,6 +25,15 @@ theorem heldOK_of_eq {α : Type} {x : St D × Out α} {st : St D} {o : Out α} (
 
 theorem runAction_no_deadlock (ops : DoubleOps D) (cells : Cells D) (name : Str)
     (ds : List (Data D)) (s : LockSite) : runAction ops cells name ds ≠ .deadlock s := by
+  unfold runAction
+  repeat' split
+  all_goals first
+    | (intro h; cases h; done)
+    | (generalize dataToString ops _ _ = x; cases x <;> (intro h; cases h))
+    | (simp only []; split <;> (intro h; cases h))
+
+theorem runAction_no_panic (ops : DoubleOps D) (cells : Cells D) (name : Str)
+    (ds : List (Data D)) (s : PanicSite) : runAction ops cells name ds ≠ .panic s := by
   unfold runAction
   repeat' split
   all_goals first
@@ -43,16 +53,19 @@ theorem runAction_no_livelock (ops : DoubleOps D) (cells : Cells D) (name : Str)
 set_option maxHeartbeats 4000000 in
 theorem eval_held_all (ops : DoubleOps D) :
     (∀ e au (st : St D), st.held = [] → HeldOK (eval ops e au st)) ∧
-    (∀ es au (st : St D) r, st.held = [] → r ≠ .deadlock .other → r ≠ .livelock → HeldOK (evalSeq ops es au st r)) ∧
+    (∀ es au (st : St D) r, st.held = [] → r ≠ .deadlock .other → r ≠ .livelock → (∀ s, r ≠ .panic s) → HeldOK (evalSeq ops es au st r)) ∧
     (∀ args (st : St D), st.held = [] → HeldOK (evalArgs ops args st)) ∧
     (∀ fs au (st : St D) acc, st.held = [] → HeldOK (evalFields ops fs au st acc)) ∧
     (∀ items au (st : St D), st.held = [] → HeldOK (evalList ops items au st)) := by
   apply eval.mutual_induct ops
     (motive_1 := fun e au st => st.held = [] → HeldOK (eval ops e au st))
-    (motive_2 := fun es au st r => st.held = [] → r ≠ .deadlock .other → r ≠ .livelock → HeldOK (evalSeq ops es au st r))
+    (motive_2 := fun es au st r => st.held = [] → r ≠ .deadlock .other → r ≠ .livelock → (∀ s, r ≠ .panic s) → HeldOK (evalSeq ops es au st r))
     (motive_3 := fun args st => st.held = [] → HeldOK (evalArgs ops args st))
     (motive_4 := fun fs au st acc => st.held = [] → HeldOK (evalFields ops fs au st acc))
     (motive_5 := fun items au st => st.held = [] → HeldOK (evalList ops items au st))
+  case case19 =>
+    intro name args x st st1 ds hargs s hrun _ _
+    exact absurd hrun (runAction_no_panic ops _ _ _ _)
   case case20 =>
     intro name args x st st1 ds hargs s hrun _ _
     exact absurd hrun (runAction_no_deadlock ops _ _ _ _)
@@ -61,6 +74,10 @@ theorem eval_held_all (ops : DoubleOps D) :
     exact absurd hrun (runAction_no_livelock ops _ _ _)
   case case34 =>
     intro l i au st st1 ir h1 h2 h3 h4 hl st2 hi ihl ihi hst
+    have hs1 : ir.isValueOrError = true → st1.held = [] := fun ho => heldOK_of_eq (ihl hst) hl ho
+    cases ir <;> simp_all [HeldOK, eval, Out.isValueOrError]
+  case case32 =>
+    intro l i au st st1 ir h1 h2 h3 h4 hl st2 s hi ihl ihi hst
     have hs1 : ir.isValueOrError = true → st1.held = [] := fun ho => heldOK_of_eq (ihl hst) hl ho
     cases ir <;> simp_all [HeldOK, eval, Out.isValueOrError]
   case case33 =>
@@ -82,7 +99,7 @@ theorem eval_held_all (ops : DoubleOps D) :
     | mk st2 ol =>
       cases ir <;> cases ol <;> simp_all [HeldOK, eval, Out.isValueOrError]
   case case95 =>
-    intro e rest au st x st1 ir h1 h2 h3 h4 he ihe ihr hst _ _
+    intro e rest au st x st1 ir h1 h2 h3 h4 he ihe ihr hst _ _ _
     have hs1 : ir.isValueOrError = true → st1.held = [] := fun ho => heldOK_of_eq (ihe hst) he ho
     cases ir <;> simp_all [HeldOK, evalSeq, Out.isValueOrError]
   case case115 =>
@@ -92,86 +109,6 @@ theorem eval_held_all (ops : DoubleOps D) :
     have := ihrest hs2
     simp only [evalFields, hk, hv]
     exact this
-  case case78 =>
-    intro o l r au st st1 lv hl st2 lv1 hr locked hlocked ihl ihr hst
-    exfalso
-    have hs1 : st1.held = [] := heldOK_of_eq (ihl hst) hl rfl
-    have hs2 : st2.held = [] := heldOK_of_eq (ihr hs1) hr rfl
-    have : locked = none := hlocked
-    simp only [locked, St.lock, hs2, List.contains_nil, Bool.false_eq_true, if_false,
-      List.contains_cons, Bool.or_false] at this
-    split at this
-    · cases this
-    · rename_i hne
-      split at this
-      · rename_i heq
-        have h1 : lv1.id = lv.id := by simpa using heq
-        exact hne (by simp [h1])
-      · cases this
-  case case80 =>
-    intro o l r au st st1 lv hl st2 lv1 hr locked st3 hlocked s hop ihl ihr hst
-    have hl3 : locked = some st3 := hlocked
-    simp only [locked] at hl3
-    have key : (eval ops (.op o l r) au st).2 = .panic s := by
-      simp only [St.get] at hop
-      simp only [eval, hl, hr]
-      simp only [hl3, St.get, hop]
-    refine ⟨?_, ?_, ?_⟩
-    · intro ho; rw [key] at ho; cases ho
-    · intro ho; rw [key] at ho; cases ho
-    · intro ho; rw [key] at ho; cases ho
-  case case81 =>
-    intro o l r au st st1 lv hl st2 lv1 hr locked st3 hlocked hop ihl ihr hst
-    have hl3 : locked = some st3 := hlocked
-    simp only [locked] at hl3
-    have key : (eval ops (.op o l r) au st).2 = .deadlock .equal := by
-      simp only [St.get] at hop
-      simp only [eval, hl, hr]
-      simp only [hl3, St.get, hop]
-    refine ⟨?_, ?_, ?_⟩
-    · intro ho; rw [key] at ho; cases ho
-    · intro ho; rw [key] at ho; cases ho
-    · intro ho; rw [key] at ho; cases ho
-  case case82 =>
-    intro o l r au st st1 lv hl st2 lv1 hr locked st3 hlocked hop ihl ihr hst
-    have hl3 : locked = some st3 := hlocked
-    simp only [locked] at hl3
-    have key : (eval ops (.op o l r) au st).2 = .fuelOut := by
-      simp only [St.get] at hop
-      simp only [eval, hl, hr]
-      simp only [hl3, St.get, hop]
-    refine ⟨?_, ?_, ?_⟩
-    · intro ho; rw [key] at ho; cases ho
-    · intro ho; rw [key] at ho; cases ho
-    · intro ho; rw [key] at ho; cases ho
-  case case79 =>
-    intro o l r au st st1 lv hl st2 lv1 hr locked st3 hlocked d newCells hop st4 st5 r' hal ihl ihr hst
-    have hs1 : st1.held = [] := heldOK_of_eq (ihl hst) hl rfl
-    have hs2 : st2.held = [] := heldOK_of_eq (ihr hs1) hr rfl
-    have hl3 : locked = some st3 := hlocked
-    simp only [locked] at hl3
-    have hheld : ((st3.held.erase lv1.id).erase lv.id) = [] := by
-      by_cases hid : (lv.id == lv1.id) = true
-      · simp only [hid, if_true, St.lock, hs2, List.contains_nil, Bool.false_eq_true, if_false,
-          Option.some.injEq] at hl3
-        subst hl3
-        simp
-      · simp only [hid, Bool.false_eq_true, if_false, St.lock, hs2, List.contains_nil] at hl3
-        simp only [List.contains_cons, List.contains_nil, Bool.or_false] at hl3
-        split at hl3
-        · cases hl3
-        · simp only [Option.some.injEq] at hl3
-          subst hl3
-          simp
-    simp only [St.get] at hop
-    refine ⟨?_, ?_, ?_⟩
-    · intro _
-      simp only [eval, hl, hr, hl3, St.get, hop]
-      simp [St.alloc, St.unlock, hheld]
-    · simp only [eval, hl, hr, hl3, St.get, hop]
-      intro ho; cases ho
-    · simp only [eval, hl, hr, hl3, St.get, hop]
-      intro ho; cases ho
   all_goals (intros; try (simp_all [HeldOK, eval, evalList, evalSeq, evalArgs, evalFields, St.alloc, St.lock, St.unlock, St.setCell, Out.isValueOrError]; done))
   all_goals (
     simp_all [HeldOK, eval, evalList, evalSeq, evalArgs, evalFields, St.alloc, St.lock, St.unlock, St.setCell, St.get, Out.isValueOrError]
@@ -180,7 +117,8 @@ theorem eval_held_all (ops : DoubleOps D) :
     try simp_all [HeldOK, eval, evalList, evalSeq, evalArgs, evalFields, St.alloc, St.lock, St.unlock, St.setCell, St.get, Out.isValueOrError]
     first
     | done
-    | ((repeat' split) <;> simp_all [St.alloc, St.lock, St.unlock, St.setCell, St.get, Out.isValueOrError]; done))
+    | ((repeat' split) <;> (try simp_all [St.alloc, St.lock, St.unlock, St.setCell, St.get, Out.isValueOrError]) <;>
+        (try (intros; contradiction))))
 
 /-- **held-lock set empty after every evaluation that returns** -/
 theorem eval_held (ops : DoubleOps D) (e : Expr) (au : Bool) (st : St D) (h : st.held = [])
@@ -196,53 +134,62 @@ theorem held_of_ok (ops : DoubleOps D) {e : Expr} {au : Bool} {st st' : St D} {r
     (h : st.held = []) (he : eval ops e au st = (st', .ok r)) : st'.held = [] :=
   heldOK_of_eq ((eval_held_all ops).1 e au st h) he rfl
 
-/-- `left = right`: no self-deadlock when the two sides are different cells -/
+/-- the only lock the evaluator can block on is one inside `DataArc::eq` -/
+theorem eval_deadlock_only_equal (ops : DoubleOps D) (e : Expr) (au : Bool) (st : St D)
+    (h : st.held = []) (s : LockSite) (hd : (eval ops e au st).2 = .deadlock s) : s = .equal := by
+  cases s with
+  | equal => rfl
+  | other => exact absurd hd (eval_no_deadlock_other ops e au st h)
+
+/-- `left = right` itself never blocks, whatever cells the two sides are (`a = a` included) -/
 theorem assign_no_deadlock (ops : DoubleOps D) (l r : Expr) (au : Bool) (st st1 st2 : St D)
     (ra v : Ref) (hst : st.held = []) (hr : eval ops r false st = (st1, .ok ra))
-    (hl : eval ops l au st1 = (st2, .ok v)) (hne : v.id ≠ ra.id) (s : LockSite) :
+    (hl : eval ops l au st1 = (st2, .ok v)) (s : LockSite) :
     (eval ops (.assign l r) au st).2 ≠ .deadlock s := by
   have hs1 := held_of_ok ops hst hr
   have hs2 := held_of_ok ops hs1 hl
   simp only [eval]
   split
   · intro h; cases h
-  · simp only [hr, hl, St.lock, hs2, List.contains_nil, Bool.false_eq_true, if_false,
-      List.contains_cons, Bool.or_false]
-    have : (v.id == ra.id) = false := by simp [hne]
-    generalize hd : ({ cells := st2.cells, vars := st2.vars, held := [ra.id] } : St D).get ra.id = d
-    cases d <;> simp only [this] <;> (try split) <;> (intro h; cases h)
+  · simp only [hr, hl, St.lock, St.unlock, hs2, List.contains_nil, Bool.false_eq_true, if_false,
+      List.erase_cons_head]
+    repeat' split
+    all_goals (intro h; cases h)
 
-/-- `left ?= right` -/
+/-- `left ?= right` (`a ?= a` included) -/
 theorem assignUndef_no_deadlock (ops : DoubleOps D) (l r : Expr) (au : Bool) (st st1 st2 : St D)
     (ra v : Ref) (hst : st.held = []) (hr : eval ops r au st = (st1, .ok ra))
-    (hl : eval ops l true st1 = (st2, .ok v)) (hne : v.id ≠ ra.id) (s : LockSite) :
+    (hl : eval ops l true st1 = (st2, .ok v)) (s : LockSite) :
     (eval ops (.assignUndef l r) au st).2 ≠ .deadlock s := by
   have hs1 := held_of_ok ops hst hr
   have hs2 := held_of_ok ops hs1 hl
   simp only [eval]
   split
   · intro h; cases h
-  · have : (v.id == ra.id) = false := by simp [hne]
-    simp only [hr, hl, St.lock, hs2, List.contains_nil, Bool.false_eq_true, if_false,
-      List.contains_cons, Bool.or_false, this]
+  · simp only [hr, hl, St.lock, St.unlock, hs2, List.contains_nil, Bool.false_eq_true, if_false,
+      List.erase_cons_head]
     intro h; cases h
 
-/-- `left[index]`: no self-deadlock when container and index are different cells -/
+/-- `left[index]` (`a[a]` included) -/
 theorem index_no_deadlock (ops : DoubleOps D) (l i : Expr) (au : Bool) (st st1 st2 : St D)
     (lv iv : Ref) (hst : st.held = []) (hl : eval ops l au st = (st1, .ok lv))
-    (hi : eval ops i au st1 = (st2, .ok iv)) (hne : iv.id ≠ lv.id) (s : LockSite) :
+    (hi : eval ops i au st1 = (st2, .ok iv)) (s : LockSite) :
     (eval ops (.index l i) au st).2 ≠ .deadlock s := by
   have hs1 := held_of_ok ops hst hl
   have hs2 := held_of_ok ops hs1 hi
-  have : (iv.id == lv.id) = false := by simp [hne]
-  simp only [eval, hl, hi, St.lock, hs2, List.contains_nil, Bool.false_eq_true, if_false,
-    List.contains_cons, Bool.or_false, this]
+  simp only [eval, hl, hi, St.lock, St.unlock, hs2, List.contains_nil, Bool.false_eq_true, if_false,
+    List.erase_cons_head]
   repeat' split
   all_goals (intro h; cases h)
 
 /-- the evaluator never produces the parser's `livelock` outcome -/
 theorem eval_no_livelock (ops : DoubleOps D) (e : Expr) (au : Bool) (st : St D)
     (h : st.held = []) : (eval ops e au st).2 ≠ .livelock :=
-  ((eval_held_all ops).1 e au st h).2.2
+  ((eval_held_all ops).1 e au st h).2.2.1
+
+/-- the evaluator never panics -/
+theorem eval_no_panic (ops : DoubleOps D) (e : Expr) (au : Bool) (st : St D)
+    (h : st.held = []) (s : PanicSite) : (eval ops e au st).2 ≠ .panic s :=
+  ((eval_held_all ops).1 e au st h).2.2.2 s
 
 end Rfsm.Expr
